@@ -85,4 +85,26 @@ def live0 (s : RState) : Bool :=
   | none => false
 
 end RState
+/-! ### the dynamic borrow state of a `RefCell` (the `rc` variant): borrows that a program keeps alive -/
+
+/-- outstanding shared borrows and the outstanding exclusive borrow of the one `RefCell` of an `rf rc` line -/
+structure CellBorrow where
+  readers : Nat := 0
+  writer : Bool := false
+  deriving DecidableEq, Repr
+
+namespace CellBorrow
+/-- `RefCell::borrow()`: refused (panic) while an exclusive borrow is alive -/
+def shared (b : CellBorrow) : Except Panic CellBorrow :=
+  if b.writer then .error .borrow else .ok { b with readers := b.readers + 1 }
+/-- `RefCell::borrow_mut()`: refused (panic) while ANY borrow is alive -/
+def exclusive (b : CellBorrow) : Except Panic CellBorrow :=
+  if b.writer || b.readers > 0 then .error .borrow else .ok { b with writer := true }
+/-- a momentary read / write (`*r.borrow()`, `*r.borrow_mut() = v`) succeeds iff the corresponding borrow would -/
+def canRead (b : CellBorrow) : Bool := !b.writer
+def canWrite (b : CellBorrow) : Bool := !b.writer && b.readers == 0
+def release (b : CellBorrow) (wasExclusive : Bool) : CellBorrow :=
+  if wasExclusive then { b with writer := false } else { b with readers := b.readers - 1 }
+end CellBorrow
+
 end Rrtk
